@@ -1387,6 +1387,42 @@ KINDS = {"hist": (hist_case, "hdf5"), "histlong": (hist_long, "hdf5"), "batch": 
          "batchlong": (batch_long, "hdf5"), "fits": (fits_case, "fits"), "batchhuge": (batch_huge, "hdf5"), "chain": (chain_case, "hdf5")}
 
 
+def scaled_unit_case(ctx, g, rng):
+    """a column whose unit carries a scale that its string form cannot hold (a tropical year, 365.2422 d; 2 pi rad; c in
+    km/s): the unit is a unit like any other for JokerSamples, the file stores its string"""
+    import astropy.units as u
+    from thejoker.samples import JokerSamples
+    REL = "round trip of a column in a scaled unit (unit and physical values)"
+    name, base, scale = [("P", u.day, 365.2422), ("omega", u.rad, 2 * math.pi), ("K", u.km / u.s, 299792.458),
+                         ("P", u.day, 365.25), ("s", u.m / u.s, 1000.0)][g["index"] % 5]
+    exact_in_string = float(f"{scale:.6g}") == scale
+    un = u.Unit(scale * base)
+    n = int(rng.integers(1, 6))
+    vals = rng.uniform(0.5, 3.0, n)
+    s = JokerSamples()
+    if name != "P":
+        s["P"] = rng.uniform(1, 9, n) * u.day
+    s[name] = vals * un
+    work = tempfile.mkdtemp(prefix="verif_c12_")
+    try:
+        fn = os.path.join(work, "scaled.hdf5")
+        s.write(fn)
+        r = JokerSamples.read(fn)
+        got = np.asarray(r[name].to_value(base), dtype=float)
+        want = np.asarray(s[name].to_value(base), dtype=float)
+    finally:
+        shutil.rmtree(work, ignore_errors=True)
+    ctx.evaluated(REL, (g["index"] % 5,) if not exact_in_string else None)
+    ctx.count("scaled-unit:" + ("scale survives a 6-digit string" if exact_in_string else "scale needs more than 6 digits"))
+    rel_err = float(np.max(np.abs(got - want) / np.abs(want)))
+    if rel_err > 4 * 2.220446049250313e-16:
+        ctx.violation(REL, g, dict(column=name, unit=f"{scale!r} {base}", values=vals.tolist()),
+                      dict(unit_read_back=str(r[name].unit), scale_read_back=float(r[name].unit.scale), values_in_base_unit=got.tolist()),
+                      dict(values_in_base_unit=want.tolist()),
+                      f"the table read back must hold the values that were written: they differ by {rel_err:.3g} relative (the unit's "
+                      "scale went through a 6-digit string)", tags=dict(op="read", what="scaled-unit-precision", fmt="hdf5"))
+
+
 def plan(ctx):
     """quick: ~45 s; thorough: ~14 min.  A case is a function of (kind, index, seed) only, so a replay does
     not depend on the tier it was found in."""
@@ -1394,13 +1430,16 @@ def plan(ctx):
         n = dict(hist=1500, histlong=700, batch=250, batchlong=150, fits=400, batchhuge=25, chain=400)
     else:
         n = dict(hist=170, histlong=0, batch=30, batchlong=0, fits=30, batchhuge=2, chain=40)
-    return [(k, i) for k in ("hist", "histlong", "batch", "batchlong", "fits", "batchhuge", "chain") for i in range(n[k])]
+    return ([(k, i) for k in ("hist", "histlong", "batch", "batchlong", "fits", "batchhuge", "chain") for i in range(n[k])]
+            + [("scaledunit", i) for i in range(50 if ctx.thorough else 5)])
 
 
 def run_case(ctx, g):
     kind, index = g["kind"], g["index"]
     ctx.seed = g.get("seed", ctx.seed)
     rng = ctx.case_rng(kind, index)
+    if kind == "scaledunit":
+        return scaled_unit_case(ctx, g, rng)
     fn, fmt = KINDS[kind]
     work = tempfile.mkdtemp(prefix="verif_c12_")
     try:
